@@ -132,6 +132,30 @@ fn exact_decimal_f64(x: f64, rng: &mut Rng) -> String {
     format!("{}{}e-{}", sign, s, point_shift)
 }
 
+/// Is `lit` exactly halfway between the two adjacent floats whose exact values are `a` and `b` (given as f64, in which the
+/// midpoint of two adjacent f32 - and of two adjacent f64 away from the extremes - is computed exactly)?
+fn is_exact_tie(lit: &str, a: f64, b: f64) -> bool {
+    let mid = a / 2.0 + b / 2.0;
+    if !mid.is_finite() || mid == a || mid == b {
+        return false;
+    }
+    let mut dummy = Rng::new(0);
+    let exp = exact_decimal_f64(mid, &mut dummy);
+    match (parse_nrf(lit.as_bytes()), parse_nrf(exp.as_bytes())) {
+        (Some(x), Some(m)) => x == m,
+        _ => false,
+    }
+}
+
+/// how a result that is not the correctly rounded one relates to it (part of the signature: specific findings stay specific)
+fn misround_kind(lit: &str, got: f64, want: f64, got_bits: u64, want_bits: u64) -> &'static str {
+    if got.is_finite() && want.is_finite() && (got_bits as i128 - want_bits as i128).abs() == 1 && is_exact_tie(lit, got, want) {
+        if got_bits & 1 == 1 { "exact-halfway-literal-rounded-to-odd" } else { "exact-halfway-literal" }
+    } else {
+        "not-a-tie"
+    }
+}
+
 fn check_float(ctx: &mut Ctx, lit: &str) {
     bump(ctx, 2);
     let t = Token::DecimalNumericProgramData(lit.as_bytes());
@@ -155,11 +179,13 @@ fn check_float(ctx: &mut Ctx, lit: &str) {
     }
     match f64::try_from(t) {
         Ok(g) if g.to_bits() == w64.to_bits() => {}
+        Ok(g) if misround_kind(lit, g, w64, g.to_bits(), w64.to_bits()) != "not-a-tie" => ctx.violation(&format!("C08:f64-{}:{}{}", misround_kind(lit, g, w64, g.to_bits(), w64.to_bits()), class(w64), if cfg!(feature = "compact") { ":compact-feature" } else { "" }), jobj(&[("literal", jstr(lit)), ("library_bits", jstr(&format!("{:#018x}", g.to_bits()))), ("reference_bits", jstr(&format!("{:#018x}", w64.to_bits())))])),
         Ok(g) => ctx.violation(&format!("C08:f64-not-correctly-rounded:{}", class(w64)), jobj(&[("literal", jstr(lit)), ("library_bits", jstr(&format!("{:#018x} ({:e})", g.to_bits(), g))), ("reference_bits", jstr(&format!("{:#018x} ({:e})", w64.to_bits(), w64)))])),
         Err(e) => ctx.violation(&format!("C08:f64-literal-rejected:{}:{}", e.get_code(), class(w64)), jobj(&[("literal", jstr(lit))])),
     }
     match f32::try_from(t) {
         Ok(g) if g.to_bits() == w32.to_bits() => {}
+        Ok(g) if misround_kind(lit, g as f64, w32 as f64, g.to_bits() as u64, w32.to_bits() as u64) != "not-a-tie" => ctx.violation(&format!("C08:f32-{}:{}{}", misround_kind(lit, g as f64, w32 as f64, g.to_bits() as u64, w32.to_bits() as u64), class32, if cfg!(feature = "compact") { ":compact-feature" } else { "" }), jobj(&[("literal", jstr(lit)), ("library_bits", jstr(&format!("{:#010x}", g.to_bits()))), ("reference_bits", jstr(&format!("{:#010x}", w32.to_bits())))])),
         Ok(g) => ctx.violation(&format!("C08:f32-not-correctly-rounded:{}", class32), jobj(&[("literal", jstr(lit)), ("library_bits", jstr(&format!("{:#010x} ({:e})", g.to_bits(), g))), ("reference_bits", jstr(&format!("{:#010x} ({:e})", w32.to_bits(), w32)))])),
         Err(e) => ctx.violation(&format!("C08:f32-literal-rejected:{}:{}", e.get_code(), class32), jobj(&[("literal", jstr(lit))])),
     }
